@@ -61,6 +61,7 @@ def run(item):
         if q == 3: return x1 - x2
         if q == 4: return 0 * x2
         if q == 5: return x1 - x1
+        if q == 6: return (1 + 2.0 ** -20) * x1
         raise KeyError(q)
 
     def snap():
